@@ -598,5 +598,28 @@ func directedMerc() []mercIn {
 			out = append(out, in)
 		}
 	}
+	// bootstrap with failed max-finalized fetches (seeded C09-C): k observers agree on a valid value, the other
+	// n-k carry the invalid flag (and whatever number, here 0 / -1 / the same value): an invalid entry is not a vote
+	for ver := 1; ver <= 4; ver++ {
+		for _, nk := range [][3]int{{4, 2, 1}, {4, 3, 1}, {7, 3, 2}, {7, 4, 2}, {4, 1, 1}} {
+			for _, junk := range []int64{0, -1, 1000} {
+				in := mercIn{Cfg: mercCfg{Ver: ver, F: nk[2], Min: "0", Max: "1000000", Window: 10, MaxLen: 400}}
+				rd := mercRound{Mode: "ok", Prev: "none"}
+				for i := 0; i < nk[0]; i++ {
+					o := mercObs{Honest: true, Ts: 2000 + uint32(i), PV: true, Bm: i192(big.NewInt(500)), Bid: i192(big.NewInt(499)), Ask: i192(big.NewInt(501)),
+						MfV: i%2 == 0 && i/2 < nk[1] || i%2 == 1 && (nk[0]+1)/2+i/2 < nk[1], Mf: 1000, LV: true, Link: i192(big.NewInt(1)), NV: true, Native: i192(big.NewInt(2)), SV: true, Status: 2}
+					if !o.MfV {
+						o.Mf = junk
+					}
+					if ver == 1 {
+						o.Blocks = []mblk{{Num: 5000, Hash: make([]byte, 32), Ts: 1200}}
+					}
+					rd.Obs = append(rd.Obs, o)
+				}
+				in.Rounds = []mercRound{rd, rd}
+				out = append(out, in)
+			}
+		}
+	}
 	return out
 }
